@@ -149,8 +149,13 @@ def run_map(job):
                         rng.choice([["compute_tip_position"],
                                     P1 + ["correct_force_slope"]]))
                 elif kind == "rate":
+                    rkw = rng.choice([
+                        {}, {}, {"lda": True},
+                        {"names": ["feat_con_apr_sum", "feat_con_idt_sum",
+                                   "feat_con_bln_slope",
+                                   "feat_con_idt_monotony"]}])
                     r = idnt.rate_quality(regressor="Extra Trees",
-                                          training_set="zef18")
+                                          training_set="zef18", **rkw)
                     ev["r"] = fmt(r)
                 else:
                     f = feat if feat in FEATURES else \
@@ -283,6 +288,47 @@ def load_records(tmp):
                    for p in afmformats.find_data(tree,
                                                  modality="force-distance"))
     observe("tree with equal file names", tree, want)
+    # listing paths and enumerations, with a file that is found but cannot
+    # be loaded (a text export that needs calibration data) between others:
+    # skipped when asked to, and never listed with another file's curves
+    from nanite import read as nread
+    for names in (("a_map", "b_text", "c_single"),
+                  ("b_map", "a_text", "c_single"),
+                  ("c_map", "z_text", "a_single")):
+        fold = tmpd / ("enum_" + names[0])
+        fold.mkdir()
+        shutil.copy2(data / "fmt-jpk-fd_map2x2_extracted.jpk-force-map",
+                     fold / (names[0] + ".jpk-force-map"))
+        z = np.linspace(0, 500, 60)
+        dd = np.concatenate([np.zeros(30), np.linspace(0.05, 3, 30)])
+        (fold / (names[1] + ".txt")).write_text("\n".join(
+            "{:.4f}\t{:.6f}\t{:.6f}".format(a, b, .9 * b).replace(".", ",")
+            for a, b in zip(z, dd)) + "\n")
+        shutil.copy2(data / "fmt-jpk-fd_spot3-0192.jpk-force",
+                     fold / (names[2] + ".jpk-force"))
+        rec = {"label": f"path/enum listing {names}", "count": -1,
+               "expected_count": 5, "order_ok": True, "enum_unique": True,
+               "progress_monotone": True, "progress_in_range": True,
+               "refusal_ok": True, "raised": ""}
+        try:
+            import logging
+            logging.disable(logging.CRITICAL)
+            with warnings.catch_warnings():
+                warnings.simplefilter("ignore")
+                listed = nread.get_data_paths_enum(fold, skip_errors=True)
+            logging.disable(logging.NOTSET)
+            rec["count"] = len(listed)
+            per = {}
+            for pp, en in listed:
+                per.setdefault(str(pp), []).append(en)
+            rec["enum_unique"] = all(len(v) == len(set(v))
+                                     for v in per.values())
+            rec["order_ok"] = not any(k.endswith(".txt") for k in per)
+        except BaseException as exc:
+            if isinstance(exc, (KeyboardInterrupt, SystemExit)):
+                raise
+            rec["raised"] = type(exc).__name__
+        recs.append(rec)
     # refusal of uncalibrated curves
     rec = {"label": "refusal", "count": 0, "expected_count": 0,
            "order_ok": True, "enum_unique": True, "progress_monotone": True,
